@@ -192,21 +192,23 @@ MaxR == IF Dims = {} THEN 0 ELSE Max({ d[1] : d \in Dims })
 MaxC == IF Dims = {} THEN 0 ELSE Max({ d[2] : d \in Dims })
 IdxSeqs(n, k) == [1 .. n -> 0 .. (k - 1)]
 
-Candidates(S_) ==
-    LET sp(a) == S_.sp[a + 1]
-        dn(a) == S_.dn[a + 1]
-    IN  { Mk("salloc", a, 0, d[1], d[2], <<>>, <<>>) : a \in SSlots, d \in Dims }
-        \cup { Mk(op, a, 0, r, c, <<>>, <<>>) : op \in {"sins", "sdel"}, a \in SSlots, r \in 0 .. (MaxR - 1), c \in 0 .. (MaxC - 1) }
-        \cup { Mk(op, a, 0, 0, 0, <<>>, <<>>) : op \in {"sclear", "sfree"}, a \in SSlots }
-        \cup { Mk("scopy", a, b, 0, 0, <<>>, <<>>) : a \in SSlots, b \in SSlots }
-        \cup UNION { { Mk(op, a, b, 0, 0, v, <<>>) : v \in IdxSeqs(sp(b).R, sp(a).R), op \in {"scopyrows", "scopyrows_opt"} } : a \in SSlots, b \in SSlots }
-        \cup UNION { { Mk(op, a, b, 0, 0, v, <<>>) : v \in IdxSeqs(sp(b).C, sp(a).C), op \in {"scopycols", "scopycols_opt"} } : a \in SSlots, b \in SSlots }
-        \cup UNION { { Mk("sfilled", a, b, 0, 0, v, w) : v \in IdxSeqs(sp(a).R, sp(b).R), w \in IdxSeqs(sp(a).C, sp(b).C) } : a \in SSlots, b \in SSlots }
-        \cup { Mk("s2d", a, b, 0, 0, <<>>, <<>>) : a \in SSlots, b \in DSlots }
-        \cup { Mk("d2s", a, b, 0, 0, <<>>, <<>>) : a \in DSlots, b \in SSlots }
-        \cup { Mk("dalloc", a, 0, d[1], d[2], <<>>, <<>>) : a \in DSlots, d \in Dims }
-        \cup { Mk("dflip", a, 0, r, c, <<>>, <<>>) : a \in DSlots, r \in 0 .. (MaxR - 1), c \in 0 .. (MaxC - 1) }
-        \cup { Mk("dfree", a, 0, 0, 0, <<>>, <<>>) : a \in DSlots }
+Do(o) == Enabled(S, o) /\ S' = Apply(S, o)
+
+(* every state-changing operation with every in-range argument (find and the row/column queries do not change the
+   state: their answers are the subject of the invariants) *)
+Step ==
+    \/ \E a \in SSlots, d \in Dims : Do(Mk("salloc", a, 0, d[1], d[2], <<>>, <<>>))
+    \/ \E op \in {"sins", "sdel"}, a \in SSlots, r \in 0 .. (MaxR - 1), c \in 0 .. (MaxC - 1) : Do(Mk(op, a, 0, r, c, <<>>, <<>>))
+    \/ \E op \in {"sclear", "sfree"}, a \in SSlots : Do(Mk(op, a, 0, 0, 0, <<>>, <<>>))
+    \/ \E a \in SSlots, b \in SSlots : Do(Mk("scopy", a, b, 0, 0, <<>>, <<>>))
+    \/ \E a \in SSlots, b \in SSlots : \E v \in IdxSeqs(S.sp[b + 1].R, S.sp[a + 1].R), op \in {"scopyrows", "scopyrows_opt"} : Do(Mk(op, a, b, 0, 0, v, <<>>))
+    \/ \E a \in SSlots, b \in SSlots : \E v \in IdxSeqs(S.sp[b + 1].C, S.sp[a + 1].C), op \in {"scopycols", "scopycols_opt"} : Do(Mk(op, a, b, 0, 0, v, <<>>))
+    \/ \E a \in SSlots, b \in SSlots : \E v \in IdxSeqs(S.sp[a + 1].R, S.sp[b + 1].R), w \in IdxSeqs(S.sp[a + 1].C, S.sp[b + 1].C) : Do(Mk("sfilled", a, b, 0, 0, v, w))
+    \/ \E a \in SSlots, b \in DSlots : Do(Mk("s2d", a, b, 0, 0, <<>>, <<>>))
+    \/ \E a \in DSlots, b \in SSlots : Do(Mk("d2s", a, b, 0, 0, <<>>, <<>>))
+    \/ \E a \in DSlots, d \in Dims : Do(Mk("dalloc", a, 0, d[1], d[2], <<>>, <<>>))
+    \/ \E a \in DSlots, r \in 0 .. (MaxR - 1), c \in 0 .. (MaxC - 1) : Do(Mk("dflip", a, 0, r, c, <<>>, <<>>))
+    \/ \E a \in DSlots : Do(Mk("dfree", a, 0, 0, 0, <<>>, <<>>))
 
 (* dimension sets for the configurations (a .cfg file cannot write tuples) *)
 DimsNone   == {}
@@ -216,7 +218,7 @@ DimsMedium == {<<2, 2>>, <<2, 3>>, <<3, 2>>, <<3, 3>>}
 Dims3x3    == {<<2, 3>>, <<3, 3>>}
 
 Init == S = S0
-Next == \E o \in Candidates(S) : Enabled(S, o) /\ S' = Apply(S, o)
+Next == Step
 DepthBound == TLCGet("level") <= MaxDepth
 
 (***************************************************************************)
